@@ -14,6 +14,10 @@ class InjectedFault(Exception):
     """Raised by a probe to emulate an interruption at a chosen call index."""
 
 
+class InjectedInterrupt(BaseException):
+    """An interruption that is not an Exception subclass (as Ctrl-C or SystemExit are not)."""
+
+
 def to_np(a):
     if a is None:
         return None
@@ -48,7 +52,8 @@ class Probe:
     likelihood / prior call index and arbitrary `on_call` observers (file probes).
     """
 
-    def __init__(self, target: Target, fault_like_at=None, fault_prior_at=None, recipe=False, record_x=False, cut_below=None):
+    def __init__(self, target: Target, fault_like_at=None, fault_prior_at=None, recipe=False, record_x=False, cut_below=None, fault_exc=InjectedFault):
+        self.fault_exc = fault_exc
         self.t = target
         # hard cut: the likelihood is exactly zero (log L = -inf) for x0 < cut_below, inside the prior support
         self.cut_below = cut_below
@@ -77,7 +82,7 @@ class Probe:
         for ob in self.observers:
             ob("P", k, samples)
         if self.fault_prior_at is not None and k == self.fault_prior_at:
-            raise InjectedFault(f"prior call {k}")
+            raise self.fault_exc(f"prior call {k}")
         self.events.append(("P", int(samples.x.shape[0])))
         return self.t.log_prior_x(samples.x)
 
@@ -88,7 +93,7 @@ class Probe:
             ob("L", k, samples)
         self.asked_rows += int(samples.x.shape[0])  # points the callable was asked for, whether or not it then fails
         if self.fault_like_at is not None and k == self.fault_like_at:
-            raise InjectedFault(f"likelihood call {k}")
+            raise self.fault_exc(f"likelihood call {k}")
         x = samples.x
         n = int(x.shape[0])
         self.like_rows += n
